@@ -351,7 +351,10 @@ def run_index(cx, exe, drv, rng):
         if i not in model:
             continue
         nv, sides = model[i]
-        ok_oracle = d["status"] == 0 and closed.get(i, False) and 0 < d["numtri"] <= len(d["tris"]) and d["numvert"] <= d["nv"]
+        # (the pipeline after CreateHalfedges may drop unreferenced vertices and, in Revolve, CleanupTopology duplicates pinched
+        #  axis vertices: the post-pipeline vertex count is only bounded by nv + #axis vertices)
+        grow = 0 if isext else sum(1 for f in c["flags"] for b in f if not b)
+        ok_oracle = d["status"] == 0 and closed.get(i, False) and 0 < d["numtri"] <= len(d["tris"]) and d["numvert"] <= d["nv"] + grow
         if not ok_oracle:
             cx.violation(("extrude" if isext else "revolve") + "-index-not-closed",
                          "%s: triVerts handed to CreateHalfedges is not a closed chain over its vertices or the result was "
@@ -676,13 +679,17 @@ def geo_cases(rng, cx):
             size=max(radius, 3.0))
         cl = clip_poly(poly)
         nsl = nd if de == 360.0 else nd + 1
-        ev = []
-        for x, y in cl:
+        ev, kinds = [], []
+        for j, (x, y) in enumerate(cl):
             for sl in range(nsl):
                 if sl == 0 or x > 0:
                     ph = math.radians(sl * (de / nd))
                     ev.append((x * math.cos(ph), x * math.sin(ph), y))
+                    # axis vertices may be duplicated (pinched apex split by CleanupTopology); an axis vertex whose two
+                    # neighbours are axis vertices too is referenced by no side triangle and may be dropped
+                    kinds.append("pos" if x > 0 else ("axis_free" if cl[j - 1][0] == 0 and cl[(j + 1) % len(cl)][0] == 0 else "axis"))
         C[-1]["verts"] = ev
+        C[-1]["vkinds"] = kinds
         C[-1]["nogeneral"] = dphi > 1.3
     # --- level sets
     for _ in range(cx.pick(5, 16)):
@@ -778,16 +785,41 @@ def run_geo(cx, exe, drv, rng):
         bpts = [tuple(bfl[i:i + 3]) for i in range(0, len(bfl), 3)]
         if c.get("verts") is not None and all(x == x for x in bfl):
             tolv = 1e-12 * max(1.0, c["size"])
-            # every output vertex is (injectively) a documented image; all images are present, except that Revolve may
-            # drop axis vertices no triangle refers to (an axis vertex between two axis vertices)
-            miss, first = match_verts(bpts, c["verts"], tolv)
-            lost = len(c["verts"]) - len(bpts)
+            # every output vertex is the documented image of an input vertex, one-to-one; every image occurs.  Revolve only:
+            # an axis image may occur several times (pinched apex duplicated) and an axis image no side triangle refers to may be absent
             nvert += 1
-            if miss or (lost != 0 and not c["tag"].startswith("revolve")) or lost < 0:
+            kinds = c.get("vkinds") or ["pos"] * len(c["verts"])
+            strict = [e for e, k in zip(c["verts"], kinds) if k == "pos"]
+            axis = [(e, k) for e, k in zip(c["verts"], kinds) if k != "pos"]
+            used = [False] * len(bpts)
+            missing = []
+            for e in strict:
+                hit = next((k for k, g in enumerate(bpts) if not used[k] and max(abs(g[t] - e[t]) for t in range(3)) <= tolv), -1)
+                if hit < 0:
+                    missing.append(e)
+                else:
+                    used[hit] = True
+            hitaxis = [0] * len(axis)
+            offending = []
+            for k, g in enumerate(bpts):
+                if used[k]:
+                    continue
+                h = next((a for a, (e, _) in enumerate(axis) if max(abs(g[t] - e[t]) for t in range(3)) <= tolv), -1)
+                if h < 0:
+                    offending.append(g)
+                else:
+                    hitaxis[h] += 1
+            # (coincident axis images, e.g. the duplicate the clipping inserts next to an on-axis input vertex, count together)
+            for a, (e, kd) in enumerate(axis):
+                if kd == "axis" and hitaxis[a] == 0 and not any(hitaxis[b2] for b2, (e2, _) in enumerate(axis)
+                                                                  if max(abs(e2[t] - e[t]) for t in range(3)) <= tolv):
+                    missing.append(e)
+            if missing or offending:
                 cx.violation("vertices-differ-from-documented-" + c["tag"].split("_")[0],
-                             "%d of %d output vertices are not the documented image of an input vertex within %g (documented images: %d; first "
-                             "offending output vertex %r): %s" % (miss, len(bpts), tolv, len(c["verts"]), first, line[:160]),
-                             dict(replay, offending=first, documented=c["verts"][:40], output_vertices=bpts[:40]))
+                             "%d of %d output vertices are not the documented image of an input vertex within %g and %d of %d documented images "
+                             "do not occur (first offending %r, first missing %r): %s" % (
+                                 len(offending), len(bpts), tolv, len(missing), len(c["verts"]), (offending or [None])[0], (missing or [None])[0], line[:160]),
+                             dict(replay, offending=offending[:8], missing=missing[:8], documented=c["verts"][:40], output_vertices=bpts[:40]))
         # transform chain
         T = IDENT
         for o in c["ops"]:
